@@ -158,6 +158,7 @@ def load(config="ws", repo=None):
     for c in crates:
         with open(os.path.join(d, c + ".json")) as fh:
             data[c] = json.load(fh)
+    info = dict(info, config=config)
     prog = Program(data, info)
     return prog
 
